@@ -26,6 +26,7 @@ def dispatch(pid, tier):
         "C05": lambda: impl.run_impl("C05", tier),
         "C11": lambda: scope.run_scope("C11", tier),
         "C19": lambda: scope.run_scope("C19", tier),
+        "C12": lambda: __import__("pv.bounds", fromlist=["run_bounds"]).run_bounds("C12", tier),
         "C13": lambda: __import__("pv.compile", fromlist=["run_c13"]).run_c13(tier),
         "C14": lambda: __import__("pv.files", fromlist=["run_files"]).run_files("C14", tier),
         "C15": lambda: impl.run_impl("C15", tier),
